@@ -321,7 +321,8 @@ type lruProbe struct {
 	store    reflect.Value
 	lst      *list.List
 	capacity reflect.Value
-	free     func() bool
+	tryLock  func() bool
+	unlock   func()
 }
 
 func field(v reflect.Value, name string) reflect.Value {
@@ -359,11 +360,14 @@ func newLRUProbe(c cache.Cache) (p *lruProbe) {
 		return nil
 	}
 	pr.lst = lp
-	fr, ok := mu.Addr().Interface().(interface{ IsFree() bool })
+	fr, ok := mu.Addr().Interface().(interface {
+		ProbeTryLock() bool
+		ProbeUnlock()
+	})
 	if !ok {
 		return nil
 	}
-	pr.free = fr.IsFree
+	pr.tryLock, pr.unlock = fr.ProbeTryLock, fr.ProbeUnlock
 	return pr
 }
 
@@ -374,9 +378,11 @@ func (p *lruProbe) check(capa int) (key, detail string) {
 			key, detail = "layout", ""
 		}
 	}()
-	if !p.free() {
+	// the probe holds the cache's own mutex while it looks (no yield inside)
+	if !p.tryLock() {
 		return "", ""
 	}
+	defer p.unlock()
 	n := p.store.Len()
 	ll := p.lst.Len()
 	if n != ll {
